@@ -16,6 +16,7 @@ class PlanBuilder:
         self.enums = {}      # canonical C++ spelling -> {'py': [path..., name], 'vals': [(name, value)]}
         self.classes = {}    # canonical instantiation -> {'py': path}
         self.plan = {'classes': [], 'functions': [], 'enums': [], 'attrs': []}
+        self.typedefs = []
         self._index(mod.items, ())
 
     # ---- pass 1: enums and class instantiations
@@ -35,6 +36,12 @@ class PlanBuilder:
             elif it.k == 'Enum':
                 q = '::'.join(path + (it.name,))
                 self.enums[q] = {'py': self._join(path, it.name), 'vals': cxxlib.enum_values(it)}
+            elif it.k == 'Typedef':
+                tg = ref_inst.find_template(self.mod, it.type.ns, it.type.name)
+                if len(tg) == 1 and tg[0].k == 'Class':
+                    this = S.T(tg[0].name, tuple(it.type.ns), tuple(it.type.args))
+                    self.classes[cxxlib.canon(this)] = {'py': self._join(path, it.name)}
+                    self.typedefs.append((tg[0], tuple(it.type.ns), tuple(it.type.args), it.name, path))
             elif it.k == 'Class':
                 for combo in ref_inst._products(it.template):
                     this = S.T(it.name, path, tuple(combo) if it.template else ())
@@ -121,13 +128,17 @@ class PlanBuilder:
             elif it.k == 'Class':
                 for combo in ref_inst._products(it.template):
                     self._klass(it, path, combo)
+            elif it.k == 'Typedef':
+                for tg, tns, targs, name, tpath in self.typedefs:
+                    if name == it.name and tpath == path:
+                        self._klass(tg, tns, targs, pyname=name, pypath=path)
 
-    def _klass(self, c, path, combo):
+    def _klass(self, c, path, combo, pyname=None, pypath=None):
         env = {p.name: i for p, i in zip(c.template or (), combo)}
         this = S.T(c.name, path, tuple(combo) if c.template else ())
         canon = cxxlib.canon(this)
-        pyname = c.name + ref_inst.inst_suffix(combo)
-        rec = {'py': self._pypath(path) + [pyname], 'class': canon, 'ctors': [], 'methods': [], 'statics': [],
+        pyname = pyname or (c.name + ref_inst.inst_suffix(combo))
+        rec = {'py': self._pypath(pypath if pypath is not None else path) + [pyname], 'class': canon, 'ctors': [], 'methods': [], 'statics': [],
                'props': [], 'ops': [], 'enums': [], 'base': None, 'virtual': c.virtual}
         if c.base is not None:
             b = ref_inst.subst(c.base, env, this)
